@@ -506,6 +506,10 @@ struct Model {
     /// injected delay counters at the start of the current read
     stall0: u64,
     late0: u64,
+    /// consecutive successful reads that brought output while undelivered input made no progress
+    /// although the child's stdin pipe had room
+    starved: u32,
+    last_delivered: usize,
 }
 
 fn redir(cfg: StreamCfg, label: &str) -> Redirection {
@@ -744,6 +748,25 @@ fn judge_read(m: &mut Model, rc: &ReadCtx, begin_seq: u64, res: &ReadOut, idx: u
             violate("deadline_overrun", format!("deadline_overrun/blocked/limit_class={}", limit_class(tl)), format!("{}: returned {} ns after the deadline {} although only {} ns of delay were injected (a call blocked past the limit)", ctx, late, d, injected));
         }
     }
+    // --- "the remaining input keeps being delivered by later reads" (C03), "input ... even while output
+    // is still being produced" (C02): every read() that has input left and room in the child's stdin
+    // pipe delivers some of it; twenty reads in a row that only bring output are starvation
+    if let (Some(pin), false) = (m.pin, m.thread_variant) {
+        let (delivered, room, open) = {
+            let pp = &sim().k.pipes[pin];
+            (pp.hist.len(), pp.slot_free(), pp.w_open && pp.r_open)
+        };
+        let pending = delivered < m.input.len();
+        if is_ok && !empty && pending && open && room && delivered == m.last_delivered {
+            m.starved += 1;
+            if m.starved == 20 {
+                violate("input_mismatch", "input_mismatch/kind=starved_by_ready_output".into(), format!("{}: 20 successful reads in a row returned output while {} of {} input bytes stayed undelivered, although the child's stdin pipe had room all the time", ctx, m.input.len() - delivered, m.input.len()));
+            }
+        } else {
+            m.starved = 0;
+        }
+        m.last_delivered = delivered;
+    }
     // unexpected error kinds in a fault-free batch are reported by the caller
     is_ok && empty
 }
@@ -910,6 +933,8 @@ pub fn run(plan: &Plan, c: &CommPlan) -> FamOut {
         thread_variant: c.thread_variant,
         stall0: 0,
         late0: 0,
+        starved: 0,
+        last_delivered: 0,
     };
     if c.thread_variant {
         return run_threaded(plan, c, m, input, faulty);
